@@ -15,6 +15,7 @@ import (
 	"github.com/bio-routing/bio-rd/protocols/bgp/server"
 	"github.com/bio-routing/bio-rd/protocols/bgp/types"
 
+	"verifharness/internal/batch"
 	"verifharness/internal/gen"
 	"verifharness/internal/rig"
 	"verifharness/internal/vf"
@@ -43,7 +44,7 @@ const (
 )
 
 var shapeNames = []string{"seq2", "seq4", "set-first", "seq+set", "empty", "rr-attrs"}
-var commNames = []string{"none", "plain", "no-export", "no-advertise", "plain+no-export", "no-export+no-advertise"}
+var commNames = []string{"none", "plain", "no-export", "no-advertise", "plain+no-export", "no-export+no-advertise", "no-advertise+no-export", "no-export+plain+no-advertise"}
 
 func commSet(i int) []uint32 {
 	switch i {
@@ -57,6 +58,10 @@ func commSet(i int) []uint32 {
 		return []uint32{65000<<16 | 7, types.WellKnownCommunityNoExport}
 	case 5:
 		return []uint32{types.WellKnownCommunityNoExport, types.WellKnownCommunityNoAdvertise}
+	case 6:
+		return []uint32{types.WellKnownCommunityNoAdvertise, types.WellKnownCommunityNoExport}
+	case 7:
+		return []uint32{types.WellKnownCommunityNoExport, 65000<<16 | 7, types.WellKnownCommunityNoAdvertise}
 	}
 	return nil
 }
@@ -267,13 +272,22 @@ func enumerate() []c9case {
 }
 
 func main() {
+	if batch.IsChild() { // server half (server.go): its cases run in child processes
+		batch.ChildMain(runServerCase)
+		return
+	}
 	vf.Main("C09", "exploration", func(r *vf.Run) {
-		r.Rule("complete enumeration of 6 AS_PATH shapes (2- and 4-ASN sequence, leading AS_SET, sequence+set, empty, with ORIGINATOR_ID/CLUSTER_LIST already present) x 6 community sets (none, plain, NO_EXPORT, NO_ADVERTISE, plain+NO_EXPORT, NO_EXPORT+NO_ADVERTISE) x source {eBGP peer, iBGP peer, RR client, the target peer itself, redistributed static} x target {eBGP, eBGP RS client, iBGP, iBGP RR client} x 27 role settings on eBGP targets (off, local only, 5 local x 5 remote roles) x OTC {absent, own ASN, other ASN} x add-path {off, on} x way of reaching the Adj-RIB-Out {propagated Loc-RIB change, initial dump at registration, refresh after an export-policy replacement}. distinct_nontrivial = combinations in which a rule of the table decided something (a forbidden advertisement to look for, or an advertised path whose rewrites were checked)")
-		r.Assume("RFC 9234 roles are enumerated on eBGP targets only", "table half only: LOCAL_PREF-only-to-iBGP and the presence of ORIGINATOR_ID/CLUSTER_LIST/OTC in the UPDATE bytes are judged by the wire half (see evidence key wire_half)",
+		r.Rule("complete enumeration of 6 AS_PATH shapes (2- and 4-ASN sequence, leading AS_SET, sequence+set, empty, with ORIGINATOR_ID/CLUSTER_LIST already present) x 8 community sets (none, plain, NO_EXPORT, NO_ADVERTISE, plain+NO_EXPORT, NO_EXPORT+NO_ADVERTISE, NO_ADVERTISE+NO_EXPORT, NO_EXPORT+plain+NO_ADVERTISE) x source {eBGP peer, iBGP peer, RR client, the target peer itself, redistributed static} x target {eBGP, eBGP RS client, iBGP, iBGP RR client} x 27 role settings on eBGP targets (off, local only, 5 local x 5 remote roles) x OTC {absent, own ASN, other ASN} x add-path {off, on} x way of reaching the Adj-RIB-Out {propagated Loc-RIB change, initial dump at registration, refresh after an export-policy replacement}. distinct_nontrivial = combinations in which a rule of the table decided something (a forbidden advertisement to look for, or an advertised path whose rewrites were checked)." + srvRule)
+		r.Assume("RFC 9234 roles are enumerated on eBGP targets only", "table half: LOCAL_PREF-only-to-iBGP and the presence of ORIGINATOR_ID/CLUSTER_LIST/OTC in the UPDATE bytes are judged by the wire half (see evidence key wire_half) and the server half",
+			"exhaustive refers to the bounded domain of the table half; the server half (real sessions: SessionAttrs as the server derives them from AddPeer and the OPEN exchange, default cluster id = router id per RFC 4456) is PRNG sampled",
 			"whether an admitted path must be present is C08's statement; here a missing path is not an alarm, but the run is inconclusive unless most admitted paths were observed")
 		_, replay := r.Replaying()
 		hg = rig.NewHangGuard(replay)
 		if raw, ok := r.Replaying(); ok {
+			if isServerCase(raw) {
+				driveServer(r, []any{raw})
+				return
+			}
 			var c c9case
 			vf.Decode(raw, &c)
 			if c.Mode == "wire" {
@@ -318,6 +332,7 @@ func main() {
 		r.Require("advertised_and_rewrites_checked", 1000)
 		r.Require("forbidden_and_absence_checked", 1000)
 		r.Require("wire_cases_judged", 100)
+		driveServer(r, genServerCases(r))
 	})
 }
 
